@@ -89,12 +89,18 @@ def sp_key(sp):
 
 def species_pool():
     """Every nucleon, every element with unspecified isotope, every tabulated isotope (neutral)."""
-    pool = [dict(el="", A=0, ion=0, nuc=n) for n in "pne"]
+    def mk(el, A, nuc=""):
+        return dict(el=el, A=A, ion=0, nuc=nuc, alias="", aliasfull=False)
+    pool = [mk("", 0, n) for n in "pne"]
     for el, (Z, iso) in PT_DATA.items():
-        pool.append(dict(el=el, A=0, ion=0, nuc=""))
+        pool.append(mk(el, 0))
         for A in iso:
-            pool.append(dict(el=el, A=int(A), ion=0, nuc=""))
+            pool.append(mk(el, int(A)))
     return pool
+
+
+def no_abundance(el):
+    return sum(ab for _, ab in PT_DATA[el][1].values()) == 0
 
 
 def with_charge(sp, rnd):
